@@ -26,6 +26,7 @@ from .c14 import CIPHERS, HASHES
 SETTING_KEYS = {'hashing', 'chunking', 'encryption', 'cipher', 'name', 'length', 'bits', 'min_length', 'max_length', 'key_bits', 'nonce_bits'}
 
 
+@H.guarded
 def w_symbolic(arg):
     seed, idx, tier = arg
     from .. import common
@@ -64,6 +65,7 @@ def windows(data, n=12):
     return out
 
 
+@H.guarded
 def w_scan(arg):
     seed, idx, tier = arg
     from .. import common
@@ -206,6 +208,10 @@ def run(out, drv, info):
         b = pool.map_async(w_scan, [(out.seed, i, out.tier) for i in range(n_scan)], chunksize=2)
         sym, scans = a.get(), b.get()
     for obs in sym:
+        if obs.get('crashed'):
+            out.case({'crashed': obs['idx']}, False)
+            out.disagreement(f'case #{obs["idx"]} could not be driven / interpreted: {obs["what"]}', {'kind': 'crash', 'idx': obs['idx'], 'trace': obs['trace']})
+            continue
         st = obs['stats']
         nontrivial = obs['encrypted'] and st['snapshots'] >= 1 and st['notes'] >= 1 and st['max_files'] >= 2 and st['keys'] >= 2
         out.case({'sym': st, 'encrypted': obs['encrypted']}, nontrivial)
@@ -242,6 +248,10 @@ def run(out, drv, info):
             if st['puts'] > 1 and not verdict['nonpublic']:
                 out.disagreement('Public did not flag the plaintext objects of an unencrypted repository', rp)
     for res in scans:
+        if res.get('crashed'):
+            out.case({'crashed': res['idx']}, False)
+            out.disagreement(f'case #{res["idx"]} could not be driven / interpreted: {res["what"]}', {'kind': 'crash', 'idx': res['idx'], 'trace': res['trace']})
+            continue
         out.case(res['summary'], res.get('nontrivial', False))
         for d in res['dist']:
             out.count(d)
